@@ -10,3 +10,4 @@ import RosuModel.Props.C04File
 import RosuModel.Props.C04Toy
 import RosuModel.Props.C04Decoded
 import RosuModel.Props.C04Ieee
+import RosuModel.Props.C04DecodedIeee
